@@ -1,3 +1,10 @@
 ; ---- traveler observers (gdbi.Traveler interface), abstract over implementations ----
 (declare-fun tCurrent (Any) Int)
 (declare-fun tSignal (Any) Bool)
+; ---- stream processes: counting functions over an input history ----
+; nonsig(ch, k): number of non-signal travelers among the first k items received on ch
+(declare-fun nonsig (Int Int) Int)
+; cnt(ch, k): number of items among the first k received on ch that the process forwards
+(declare-fun cnt (Int Int) Int)
+(define-fun imin ((a Int) (b Int)) Int (ite (<= a b) a b))
+(define-fun imax ((a Int) (b Int)) Int (ite (>= a b) a b))
